@@ -598,7 +598,13 @@ impl Dup for VirtualSystem {
 
     fn dup2(&self, from: Fd, to: Fd) -> Result<Fd> {
         let mut process = self.current_process_mut();
-        let mut body = process.fds.get(&from).ok_or(Errno::EBADF)?.clone();
+        let body = process.fds.get(&from).ok_or(Errno::EBADF)?;
+        if from == to {
+            // POSIX: If the two FDs are equal, dup2 returns the FD without
+            // closing it or changing its flags.
+            return Ok(to);
+        }
+        let mut body = body.clone();
         body.flags = EnumSet::empty();
         process.set_fd(to, body).map_err(|_| Errno::EBADF)?;
         Ok(to)
@@ -2157,6 +2163,22 @@ mod tests {
         let process = system.current_process();
         let fd6 = process.fds.get(&Fd(6)).unwrap();
         assert_eq!(fd6.flags, EnumSet::empty());
+    }
+
+    #[test]
+    fn dup2_to_same_fd_keeps_cloexec() {
+        let system = VirtualSystem::new();
+        system
+            .fcntl_setfd(Fd::STDOUT, FdFlag::CloseOnExec.into())
+            .unwrap();
+
+        let result = system.dup2(Fd::STDOUT, Fd::STDOUT);
+        assert_eq!(result, Ok(Fd::STDOUT));
+        let flags = system.fcntl_getfd(Fd::STDOUT).unwrap();
+        assert_eq!(flags, EnumSet::only(FdFlag::CloseOnExec));
+
+        let result = system.dup2(Fd(7), Fd(7));
+        assert_eq!(result, Err(Errno::EBADF));
     }
 
     #[test]
